@@ -36,7 +36,20 @@ def update_bytes(withdraw_idx, announce_idx, lp):
     wd = b''.join(E.prefix(POOL[i][1], POOL[i][2]) for i in withdraw_idx)
     nl = b''.join(E.prefix(POOL[i][1], POOL[i][2]) for i in announce_idx)
     enc, dec = attrs_for(lp)
-    return S.frame(2, E.update_body(wd, enc if announce_idx else b'', nl)), dec
+    mp = b''
+    if P.get('with_mp') == 'unreach':
+        # an IPv6 MP_UNREACH_NLRI travelling in the same UPDATE as the IPv4 fields (legal, unusual)
+        mp = E.attr(15, E.u16(2) + bytes([1, 32]) + bytes.fromhex('20010db8'))
+        dec = dict(dec)
+        dec[15] = {'afi_safi': (2, 1), 'withdraw': ['2001:db8::/32']}
+    elif P.get('with_mp') == 'reach':
+        mp = E.attr(14, E.u16(2) + bytes([1, 16]) + bytes.fromhex('20010db8000000000000000000000001') + bytes([0, 32]) +
+                    bytes.fromhex('20010db8'))
+        dec = dict(dec)
+        dec[14] = {'afi_safi': (2, 1), 'nexthop': '2001:db8::1', 'nlri': ['2001:db8::/32']}
+    if not announce_idx and mp:
+        dec = {k: v for k, v in dec.items() if k in (14, 15)}
+    return S.frame(2, E.update_body(wd, (enc if announce_idx else b'') + mp, nl)), dec
 
 
 def world(rib=True):
@@ -271,6 +284,33 @@ def ob_family_version(m1: int, m2: int) -> bool:
         [h[0] for h in w.handler.log].count('on_update_error') == 0
 
 
+def ob_flowspec_send_version(x: int) -> bool:
+    """sent flowspec rules: +1 when a new rule is announced, 0 for a repeat, +1 when a present rule is withdrawn, 0 when an
+    absent one is - whatever component types the rule has"""
+    assume(0 <= x < 256)
+    rule = dict(P['rule'])
+    w = world(rib=False)
+    p = w.fsm.protocol
+
+    def post(body):
+        r = rest.call('v1.send_update_message', '/v1/peer/10.0.0.2/send/update', 'POST', creds=('admin', 'admin'),
+                      view_args={'peer_ip': '10.0.0.2'}, body=body)
+        return r.status == 200 and r.obj.get('status') is True
+    ann = {'attr': {'1': 0, '2': [], '4': x, '5': 100, '14': {'afi_safi': [1, 133], 'nexthop': '', 'nlri': [rule]}}}
+    wd = {'attr': {'15': {'afi_safi': [1, 133], 'withdraw': [rule]}}}
+    v0 = p.send_version['flowspec']
+    if not post(ann) or p.send_version['flowspec'] != v0 + 1:
+        return False
+    if not post(ann) or p.send_version['flowspec'] != v0 + 1:
+        return False
+    cover('announced')
+    if not post(wd) or p.send_version['flowspec'] != v0 + 2:
+        return False
+    if not post(wd) or p.send_version['flowspec'] != v0 + 2:
+        return False
+    return True
+
+
 def obligations(tier, seed):
     quick = tier == 'quick'
     out = []
@@ -278,6 +318,11 @@ def obligations(tier, seed):
         present = [(bits >> i) & 1 == 1 for i in range(3)]
         out.append(ob('C19/rib-in/present=%s' % ''.join('1' if x else '0' for x in present), 'ob_rib_in', {'present': present},
                       covers=['delivered'], cap=280 if quick else 800))
+    for mpk in ('unreach', 'reach'):
+        for bits in (0, 3, 5):
+            present = [(bits >> i) & 1 == 1 for i in range(3)]
+            out.append(ob('C19/rib-in/with-mp-%s/present=%s' % (mpk, ''.join('1' if x else '0' for x in present)), 'ob_rib_in',
+                          {'present': present, 'with_mp': mpk}, covers=['delivered'], cap=280 if quick else 800))
     for how in ('peer-close', 'notification'):
         out.append(ob('C19/flush/%s' % how, 'ob_rib_flush', {'how': how}, covers=['dropped']))
     out.append(ob('C19/rib-in/sequence-of-3', 'ob_rib_seq', {}, covers=['seq'], cap=280 if quick else 800))
@@ -286,6 +331,10 @@ def obligations(tier, seed):
             present = [(bits >> i) & 1 == 1 for i in range(2)]
             out.append(ob('C19/rib-out/%s/present=%s' % (mode, ''.join('1' if x else '0' for x in present)), 'ob_rib_out',
                           {'mode': mode, 'present': present}, covers=['called'], cap=280 if quick else 800))
+    for i, rule in enumerate(({'1': '192.88.3.0/24', '3': '=6'}, {'2': '192.89.3.0/24', '10': '=100'},
+                              {'1': '10.0.0.0/8', '3': '=17', '11': '=46'}, {'5': '=80', '10': '>=64'})):
+        out.append(ob('C19/send-version/flowspec/rule%d' % i, 'ob_flowspec_send_version', {'rule': rule}, covers=['announced'],
+                      cap=200))
     for fam in ('flowspec', 'vpnv4'):
         out.append(ob('C19/version/%s/change-then-repeat' % fam, 'ob_family_version', {'family': fam, 'second': 0, 'third': True},
                       covers=['second'], cap=280 if quick else 800))
